@@ -69,6 +69,7 @@ type Contract struct {
 	File     string
 	Line     int
 	CallAsserts []CallAssert // assertions at named call sites inside this function
+	SendAsserts []Clause     // "at_send assert label: e": holds at every channel send in this function
 	Ghost    []GhostUpdate // ghost updates performed at calls to this function (after the call)
 	Raw      []string
 }
@@ -553,6 +554,16 @@ func (cs *ContractSet) loadFile(path, repoDir string) error {
 				}
 				n, _ := strconv.Atoi(m[2])
 				cur.CallAsserts = append(cur.CallAsserts, CallAssert{Callee: m[1], N: n, Clause: c})
+			case "at_send":
+				m := regexp.MustCompile(`^assert\s+(.*)$`).FindStringSubmatch(rest)
+				if m == nil {
+					return fmt.Errorf("%s:%d: at_send assert label: expr", path, lineNo)
+				}
+				c, err := parseClause(m[1], path, lineNo)
+				if err != nil {
+					return err
+				}
+				cur.SendAsserts = append(cur.SendAsserts, c)
 			case "after_call":
 				m := regexp.MustCompile(`^(\S+)#(\d+)\s+ghost\s+(\w+)\s*:=\s*(.*)$`).FindStringSubmatch(rest)
 				if m == nil {
